@@ -70,7 +70,8 @@ func main() {
 		Rule: "generated programs dominated by function definitions (0..3 parameters, varargs, methods) and calls with fewer/equal/more arguments in every result context " +
 			"(statement, single, parenthesised, middle, last of argument list/return list/table constructor/multiple assignment), select/unpack/arg; traces compared with the reference evaluator; " +
 			"non-trivial = at least 5 emitted rows or an error outcome; distinct by Gallina term",
-		Modes:     []luaprop.Mode{{Name: "calls", Features: f, Weight: 5}, {Name: "calls-bigk", Features: bigk(f), Weight: 1}},
+		Modes: []luaprop.Mode{{Name: "calls", Features: f, Weight: 5}, {Name: "calls-bigk", Features: bigk(f), Weight: 1},
+			{Name: "calls-history", Features: f, Weight: 1, Gen: luagen.W5C02Program}},
 		NQuick:    400,
 		NThorough: 2500,
 		Corpus:    corpus,
